@@ -878,6 +878,12 @@ class Multiplexer(utils.EventEmitter):
 
     def on_dm_frame(self, _frame: RFCOMM_Frame) -> None:
         if self.state == Multiplexer.State.OPENING:
+            dlc = self.dlcs.get(_frame.dlci)
+            if dlc is not None and dlc.state == DLC.State.CONNECTING:
+                # The PN was accepted but the SABM is answered with DM: the DLC that
+                # was created for the PN response is refused, it is not open
+                dlc.change_state(DLC.State.DISCONNECTED)
+                del self.dlcs[_frame.dlci]
             self.change_state(Multiplexer.State.CONNECTED)
             if self.open_result:
                 self.open_result.set_exception(
